@@ -13,3 +13,9 @@ func VBigIntToInt(val *big.Int, intSize int) (int, error) { return bigIntToInt(v
 func VBigIntToUint(val *big.Int, intSize int) (uint, error) {
 	return bigIntToUint(val, intSize)
 }
+
+// overflow-checked arithmetic of the time conversions
+func VAddExact(x, y int64) (int64, bool)      { return addExact(x, y) }
+func VMultiplyExact(x, y int64) (int64, bool) { return multiplyExact(x, y) }
+func VFloorDiv(x, y int64) int64              { return floorDiv(x, y) }
+func VFloorMod(x, y int64) int64              { return floorMod(x, y) }
